@@ -28,7 +28,8 @@ def ens_case(draw):
     n = draw(st.sampled_from([256, 300, 400, 512]))
     sig = {'family': draw(st.sampled_from(['tones', 'amfm', 'walk', 'noise'])), 'n': n,
            'k': draw(st.integers(0, 2**32 - 1)), 'p1': draw(st.floats(0, 1)), 'p2': draw(st.floats(0, 1)),
-           'dtype': draw(st.sampled_from(['f8', 'f8', 'f8', 'f4', 'i8', 'i2']))}
+           'dtype': draw(st.sampled_from(['f8', 'f8', 'f8', 'f4', 'i8', 'i2'])),
+           'layout': draw(st.sampled_from(['C', 'C', 'C', 'strided', 'readonly']))}
     return {'sig': sig, 'nens': draw(st.integers(1, 8)), 'nproc': draw(st.integers(1, 8)),
             'mode': draw(st.sampled_from(['single', 'flip'])), 'noise': draw(st.sampled_from([0.0, 0.05, 0.2, 1.0])),
             'cap': draw(st.sampled_from([1, 2, 3, 3, 9, 14])), 'seed': draw(st.integers(0, 2**31 - 1)),
@@ -90,7 +91,7 @@ def oracle_ensemble(case, rec):
     np.random.seed(case['seed'])
     try:
         with Trace() as tr:
-            out = np.asarray(emd.sift.ensemble_sift(xt.copy(), nensembles=case['nens'], ensemble_noise=case['noise'],
+            out = np.asarray(emd.sift.ensemble_sift(gens.arg(xt), nensembles=case['nens'], ensemble_noise=case['noise'],
                                                     noise_mode=case['mode'], nprocesses=case['nproc'], max_imfs=case['cap'],
                                                     **stage_opts(case)))
     except emd.support.EMDSiftCovergeError:
@@ -150,7 +151,7 @@ def oracle_complete(case, rec):
     np.random.seed(case['seed'])
     try:
         with Trace() as tr:
-            out = emd.sift.complete_ensemble_sift(xt.copy(), nensembles=case['nens'], ensemble_noise=case['noise'],
+            out = emd.sift.complete_ensemble_sift(gens.arg(xt), nensembles=case['nens'], ensemble_noise=case['noise'],
                                                   noise_mode=case['mode'], nprocesses=case['nproc'], max_imfs=case['cap'],
                                                   **stage_opts(case))
     except emd.support.EMDSiftCovergeError:
